@@ -149,6 +149,7 @@ def deviations():
                                                                                              "sign": "override", "state": "ok", "name": "Twin"}),
                                                              c.__setitem__("order", ["Card", "Twin", "Bank"]))))
     devs.append(("supplemental", "supplemental:absent", lambda c: c.__setitem__("supplemental", False)))
+    devs.append(("supplemental", "supplemental:latin1-byte", lambda c: c.__setitem__("supplemental", "latin1")))
     devs.append(("order", "sources:reordered", lambda c: c.__setitem__("order", ["Bank", "Card"])))
     return devs
 
@@ -262,8 +263,11 @@ def materialise(cfg, base):
             f.write(data)
     if cfg["supplemental"]:
         y.append('  - name: orders\n    file: data/orders.csv\n    format: "{date:%Y-%m-%d},{item},{amount}"\n    columns:\n      description: "{item}"\n    supplemental: true')
-        with open(os.path.join(base, "data", "orders.csv"), "w", encoding="utf-8") as f:
-            f.write("Date,Item,Amount\n" + "".join(f"{d.isoformat()},{i},{a}\n" for d, i, a in ORDERS))
+        with open(os.path.join(base, "data", "orders.csv"), "wb") as f:
+            f.write(("Date,Item,Amount\n" + "".join(f"{d.isoformat()},{i},{a}\n" for d, i, a in ORDERS)).encode("utf-8"))
+            if cfg["supplemental"] == "latin1":
+                # an export in a legacy 8-bit encoding: the undecodable byte is replaced, the rows stay usable
+                f.write(b"2025-01-20,Caf\xe9 Latin,3.33\n")
     with open(os.path.join(base, "config", "settings.yaml"), "w", encoding="utf-8") as f:
         f.write("\n".join(y) + "\n")
 
@@ -284,6 +288,8 @@ def expected_stats(cfg, base):
     transforms = get_transforms(path, match_mode=mode)
     rules = get_all_rules(path, match_mode=mode)
     ds = {"orders": [{"date": d, "item": i, "amount": a, "description": i} for d, i, a in ORDERS]} if cfg["supplemental"] else {}
+    if cfg["supplemental"] == "latin1":
+        ds["orders"].append({"date": dt.date(2025, 1, 20), "item": "Caf\ufffd Latin", "amount": 3.33, "description": "Caf\ufffd Latin"})
     txns = []
     readable = []
     for key in cfg["order"]:
